@@ -211,6 +211,58 @@ var failures = []failure{
 		kit.Quiesce()
 		kit.Count("error-provoked")
 	}},
+	{"recv-abandoned-by-a-new-send", func(w *world) bool { return w.k.NeedOut && !w.k.Raw }, func(w *world) {
+		// a Recv is waiting for the answer to request / survey 1 when another goroutine sends number 2
+		// on the same socket: the Recv fails with the cancellation error - and that is all that happens
+		w.x.PrepRecv()
+		rc := kit.Start("Recv-abandoned", func() (interface{}, error) { return w.x.Recv() })
+		kit.Quiesce()
+		if rc.Done() {
+			return // (an answer was there already)
+		}
+		_ = call("Send-again", 0, func() error { return w.x.Send("second") })
+		kit.Quiesce()
+		if !rc.Done() {
+			kit.Failf("recv-not-canceled", "%s: a new Send did not end the Recv that waited for the previous one", w.k.Name)
+		}
+		expect("Recv(abandoned)", rc.Err, mangos.ErrCanceled, mangos.ErrRecvTimeout)
+		kit.Count("error-provoked")
+	}},
+	{"inproc-dial-from-a-protocol-that-is-not-the-peer", nil, func(w *world) {
+		w.n++
+		addr := fmt.Sprintf("inproc://c12-proto%d", w.n)
+		if err := call("Listen(inproc)", 0, func() error { return w.x.S.Listen(addr) }); err != nil {
+			kit.Failf("inproc-listen", "Listen(%s): %s", addr, kit.ErrName(err))
+		}
+		// a socket whose protocol ours does not talk to
+		wrongName := "pub"
+		if w.x.S.Info().Peer == mangos.ProtoPub || w.x.S.Info().Self == mangos.ProtoPub {
+			wrongName = "push"
+		}
+		wrong, err := kinds.ByName(wrongName).New()
+		if err != nil {
+			kit.Failf("setup", "NewSocket: %v", err)
+		}
+		expect("Dial(wrong protocol over inproc)", call("Dial-badproto", 0, func() error { return wrong.Dial(addr) }), mangos.ErrBadProto)
+		_ = call("Socket.Close(wrong)", 0, wrong.Close)
+		kit.Count("error-provoked")
+		w.dropAllPeers()
+		before := len(w.pipes)
+		peer, err := w.k.NewPeer()
+		if err != nil {
+			kit.Failf("setup", "NewSocket(peer): %v", err)
+		}
+		dc := kit.Start("Dial(inproc peer)", func() (interface{}, error) { return nil, peer.Dial(addr) })
+		kit.Quiesce()
+		if !dc.Done() || dc.Err != nil {
+			kit.Failf("listener-stopped-accepting:inproc-badproto", "%s: after a Dial from a protocol that is not its peer was refused, a matching peer's Dial: done=%v %s", w.k.Name, dc.Done(), kit.ErrName(dc.Err))
+		}
+		if w.byAddr[addr] != 1 && !(w.single() && len(w.pipes) > before) {
+			kit.Failf("listener-stopped-accepting:inproc-badproto", "%s: the matching inproc peer dialed but did not attach", w.k.Name)
+		}
+		_ = call("Socket.Close(peer)", 0, peer.Close)
+		kit.Quiesce()
+	}},
 	{"peer-drops-connection", nil, func(w *world) {
 		p := w.x.EP.Connect()
 		kit.Quiesce()
